@@ -228,6 +228,7 @@ def r2_conservation(ctx):
 
 
 def r1_agreement(ctx):
+    K.duplicate_dict_keys(ctx, ['src/scinumtools/materials/periodic_table.py'], 'isotope and element tables')
     cfgs = {c.relpath: c for c in all_configs(ctx.repo) if c.relpath in (SS, MS)}
     for rel, qual in ((SS, "SubstanceSolver.preprocess"), (MS, "MaterialSolver.preprocess")):
         cfg = cfgs.get(rel)
@@ -558,6 +559,29 @@ def r4_species(ctx):
             want = (f"int({a})", f"int({G}[{gi}])")
             ctx.check(pairs == [want], EL, "Element.__init__", f"{kind} with a charge suffix ({form}) keeps the charge",
                       detail=[list(p_) for p_ in pairs], expected=[f"int({a})", f"int(groups[{gi}])"])
+    # the lookups receive the parsed fields in the roles their parameters name: isotope number and charge are both small
+    # integers (or None), so passing one for the other type-checks and silently drops or misplaces the charge
+    ROLE = {"iso": "self.isotope", "isotope": "self.isotope", "A": "self.isotope", "ion": "self.ionisation", "ionisation": "self.ionisation", "charge": "self.ionisation",
+            "element": "self.element", "Z": None}
+    c_el = ctx.repo.cls(EL, "Element")
+    for getter in ("get_isotope", "get_natural", "get_abundant"):
+        callee = methods(c_el).get(getter)
+        if callee is None:
+            continue
+        pnames = [a.arg for a in callee.args.args[1:]]
+        for call in [c for c in ast.walk(fn) if isinstance(c, ast.Call) and norm(c.func) == f"self.{getter}"]:
+            for pn, arg in list(zip(pnames, call.args)) + [(k.arg, k.value) for k in call.keywords if k.arg]:
+                wantf = ROLE.get(pn)
+                got = norm(arg)
+                what = f"{getter}() receives the parsed {pn} in the parameter {pn}"
+                if wantf is None:
+                    continue
+                if got == wantf:
+                    ctx.holds(EL, "Element.__init__", what)
+                elif got in ("self.isotope", "self.ionisation", "self.element"):
+                    ctx.violated(EL, "Element.__init__", what, detail=f"{norm(call)[:80]}: parameter {pn} receives {got}", expected=wantf)
+                else:
+                    ctx.form(False, EL, "Element.__init__", what, detail=got)
     # which isotope data are looked up: a table over (isotope given, natural mode) read from the paths
     from ..flowexpr import paths as _paths
     what = "explicit isotope > natural mean > most abundant isotope"
